@@ -9,3 +9,4 @@ pub mod state;
 pub mod statecheck;
 pub mod types;
 pub mod plan;
+pub mod faults;
